@@ -7,6 +7,7 @@ CONSTANTS
   MaxSteps = 4
   Forms = {"take", "read", "take_next", "read_inst"}
   Kinds = {"V", "D"}
+  Retransmit = FALSE
   GenK = 20
 CONSTRAINT Bound
 VIEW View
